@@ -226,6 +226,12 @@ class Ctx:
 
         self.repo = repo
         self.m = Model(repo)
+        from .cfg import STR_TOTAL_METHODS
+        from .model import AnalysisError
+
+        clash = sorted(f.qual for f in self.m.funcs.values() if f.cls and f.name in STR_TOTAL_METHODS)
+        if clash:
+            raise AnalysisError(f"engine assumption broken: {clash} shadow str methods that the nullability analysis treats as never returning None")
         self._r = self._e = self._p = None
         self._cfg = {}
         self._facts = {}
